@@ -68,6 +68,7 @@ type FuncCtx struct {
 	specHdr  []string
 	ghostDecl map[string]bool
 	assumptions []string
+	defers []deferRec
 	// inlining of callees without a contract (inline.go)
 	inl         *inlineFrame
 	inlineDepth int
